@@ -616,6 +616,8 @@ class SpecMachine:
         sig = SIG.get(op)
         if sig is None:
             sig = "n" * (g["ncs"] if op in ("sc", "scn") else g["scs"])
+        if any(a[0] == "b" for a in args):
+            raise Out("boolean operand")
         if len(args) > len(sig):
             raise Out("excess operands")
         if len(args) < len(sig) or any(a[0] != t for a, t in zip(args, sig)):
